@@ -97,7 +97,7 @@ fn lonlat_vec(ll: LonLat) -> [f64; 3] {
 
 pub fn search_c18(rng: &mut Rng, thorough: bool) -> SearchResult {
     let mut r = SearchResult::default();
-    r.rule = "nearest-face selection on uniform points, points within 1e-2..1e-9 of the seams and points 1e-9..0.05 rad from the 20 dodecahedron vertices against the true nearest centre by dot product (ties within 1e-12 skipped); the 12 base-cell centres from the public API: antipodal pairs / 63.435 degrees, 5 neighbours each, face 0 at the north pole, face 1 at longitude -93; lookups at resolution 0 agree with the nearest face; quintant<->segment relabelling on all 12 x 5. non-trivial = distinct points / pairs".into();
+    r.rule = "nearest-face selection on uniform points, points within 1e-2..1e-9 of the seams and points 1e-9..0.05 rad from the 20 dodecahedron vertices against the true nearest centre by dot product (ties within 1e-12 skipped), also with the azimuth written 1..3 whole turns away in either direction; the 12 base-cell centres from the public API: antipodal pairs / 63.435 degrees, 5 neighbours each, face 0 at the north pole, face 1 at longitude -93; lookups at resolution 0 agree with the nearest face; quintant<->segment relabelling on all 12 x 5. non-trivial = distinct points / pairs".into();
     let origins = get_origins();
     let axes: Vec<[f64; 3]> = origins.iter().map(|o| cart(o.axis.theta().get(), o.axis.phi().get())).collect();
     let base = a5::get_res0_cells().unwrap();
@@ -132,6 +132,17 @@ pub fn search_c18(rng: &mut Rng, thorough: bool) -> SearchResult {
         }
         if got != best {
             r.viol("nearest", format!("find_nearest_origin(theta {:e}, phi {:e}) = {}, nearest centre is {} (dots {:e} vs {:e})", t, p, got, best, dot(v, axes[got]), dot(v, axes[best])));
+        }
+        // the same point with its azimuth written some whole turns away (a Spherical carries any real azimuth); margin
+        // 1e-9 because adding 2*pi*k moves the point by an ulp of the larger number
+        if k % 4 == 1 && dot(v, axes[best]) - second > 1e-9 {
+            let turns = [-3.0, -2.0, -1.0, 1.0, 2.0, 3.0][rng.below(6) as usize];
+            let t2 = t + turns * std::f64::consts::TAU;
+            let got2 = find_nearest_origin(Spherical::new(Radians::new_unchecked(t2), Radians::new_unchecked(p))).id as usize;
+            r.count("azimuth_whole_turns_away");
+            if got2 != best {
+                r.viol("nearest", format!("find_nearest_origin(theta {:e} = {:e} {:+} turns, phi {:e}) = {}, nearest centre is {}", t2, t, turns, p, got2, best));
+            }
         }
         // lookup at resolution 0 returns the base cell of the nearest face
         if k % 8 == 0 {
